@@ -1,0 +1,7 @@
+//go:build !verif
+// +build !verif
+
+package network
+
+// simNet is the simulated-transport seam; active only under the verif build tag.
+func simNet() Network { return nil }
